@@ -128,12 +128,14 @@ func goEnv() []string {
 func build(p *Prop, race bool) (string, error) {
 	bdir := filepath.Join(verifDir, ".build")
 	os.MkdirAll(bdir, 0o755)
-	out := filepath.Join(bdir, strings.ToLower(p.ID)+".test")
+	// one binary per invocation: two checks of the same property may run at the same time
+	out := filepath.Join(bdir, fmt.Sprintf("%s.%d.test", strings.ToLower(p.ID), os.Getpid()))
 	args := []string{"test", "-c", "-tags", "verif", "-vet=off", "-o", out}
 	if race {
-		out = filepath.Join(bdir, strings.ToLower(p.ID)+".race.test")
+		out = filepath.Join(bdir, fmt.Sprintf("%s.%d.race.test", strings.ToLower(p.ID), os.Getpid()))
 		args = []string{"test", "-c", "-race", "-tags", "verif", "-vet=off", "-o", out}
 	}
+	builtBins = append(builtBins, out)
 	args = append(args, "./"+p.Pkg)
 	// go.sum must cover casket's dependencies; refresh it from /repo.
 	syncGoSum()
@@ -150,6 +152,27 @@ func build(p *Prop, race bool) (string, error) {
 }
 
 var goSumOnce sync.Once
+
+// binaries built by this invocation, removed when it ends
+var builtBins []string
+
+func removeBuilt() {
+	for _, b := range builtBins {
+		os.Remove(b)
+	}
+}
+
+// pruneStale removes scratch directories and binaries that crashed invocations left behind.
+func pruneStale() {
+	for _, pat := range []string{filepath.Join(verifDir, ".work", "*"), filepath.Join(verifDir, ".build", "*.test")} {
+		ms, _ := filepath.Glob(pat)
+		for _, m := range ms {
+			if fi, err := os.Stat(m); err == nil && time.Since(fi.ModTime()) > 6*time.Hour {
+				os.RemoveAll(m)
+			}
+		}
+	}
+}
 
 func syncGoSum() {
 	goSumOnce.Do(func() {
@@ -224,13 +247,15 @@ func haveNetns() bool {
 func runTier(p *Prop, tier string) int {
 	start := time.Now()
 	seed := verifSeed()
-	work := filepath.Join(verifDir, ".work", p.ID)
+	pruneStale()
+	work := filepath.Join(verifDir, ".work", fmt.Sprintf("%s.%d", p.ID, os.Getpid()))
 	os.RemoveAll(work)
 	os.MkdirAll(work, 0o755)
 	defer func() {
 		if os.Getenv("VERIF_KEEP_WORK") == "" {
 			os.RemoveAll(work)
 		}
+		removeBuilt()
 	}()
 
 	needRace, needPlain := false, false
@@ -314,6 +339,9 @@ func runTier(p *Prop, tier string) int {
 		if tier == "thorough" {
 			timeout = 60 * time.Minute
 		}
+	}
+	if v, err := strconv.Atoi(os.Getenv("VERIF_TIMEOUT_S")); err == nil && v > 0 {
+		timeout = time.Duration(v) * time.Second // debugging aid
 	}
 	ctx, cancel := context.WithTimeout(context.Background(), timeout)
 	defer cancel()
@@ -416,7 +444,9 @@ func runTier(p *Prop, tier string) int {
 		case j.code == 0:
 		case j.timed:
 			inconclusive++
-			fmt.Printf("--- job %s#%d timed out after %s\n%s\n", j.sub.Name, j.shard, j.dur.Round(time.Second), tail(j.out.String(), 40))
+			dump := filepath.Join(verifDir, ".build", fmt.Sprintf("timeout.%s.%s.%d.log", p.ID, j.sub.Name, j.shard))
+			os.WriteFile(dump, j.out.Bytes(), 0o644)
+			fmt.Printf("--- job %s#%d timed out after %s (output with the goroutine dump: %s)\n%s\n", j.sub.Name, j.shard, j.dur.Round(time.Second), dump, tail(j.out.String(), 40))
 		case j.code == 1 && violations > 0:
 			// accounted for by the replay files
 		default:
@@ -429,7 +459,12 @@ func runTier(p *Prop, tier string) int {
 	ev := mergeEvidence(p, tier, seed, work, jobs, violations, time.Since(start), netns)
 	os.MkdirAll(filepath.Join(verifDir, "evidence"), 0o755)
 	eb, _ := json.MarshalIndent(ev, "", " ")
-	os.WriteFile(filepath.Join(verifDir, "evidence", p.ID+".json"), append(eb, '\n'), 0o644)
+	evTmp := filepath.Join(verifDir, "evidence", fmt.Sprintf(".%s.%d.tmp", p.ID, os.Getpid()))
+	if os.Getenv("VERIF_EVIDENCE_SKIP") != "" {
+		// runs against a deliberately broken tree (seed sweeps) must not replace the evidence of the real one
+	} else if os.WriteFile(evTmp, append(eb, '\n'), 0o644) == nil {
+		os.Rename(evTmp, filepath.Join(verifDir, "evidence", p.ID+".json"))
+	}
 
 	if violations > 0 {
 		for _, rp := range replayPaths {
@@ -513,8 +548,17 @@ func runJob(ctx context.Context, p *Prop, j *job, tier string, seed int64, work 
 	cmd.Stdout = &j.out
 	cmd.Stderr = &j.out
 	cmd.SysProcAttr = &syscall.SysProcAttr{Setpgid: true}
-	cmd.Cancel = func() error { return syscall.Kill(-cmd.Process.Pid, syscall.SIGKILL) }
-	cmd.WaitDelay = 5 * time.Second
+	// on a timeout ask the Go runtime for its goroutine dump first (SIGQUIT), kill a little later
+	cmd.Cancel = func() error {
+		pid := cmd.Process.Pid
+		syscall.Kill(pid, syscall.SIGQUIT)
+		go func() {
+			time.Sleep(4 * time.Second)
+			syscall.Kill(-pid, syscall.SIGKILL) // the whole group: child processes of the test too
+		}()
+		return nil
+	}
+	cmd.WaitDelay = 10 * time.Second
 	err := cmd.Run()
 	j.dur = time.Since(t0)
 	if err != nil {
@@ -805,10 +849,11 @@ func runReplay(p *Prop, file string) int {
 		fmt.Println(err)
 		return 2
 	}
-	work := filepath.Join(verifDir, ".work", p.ID+"-replay")
+	work := filepath.Join(verifDir, ".work", fmt.Sprintf("%s-replay.%d", p.ID, os.Getpid()))
 	os.RemoveAll(work)
 	os.MkdirAll(work, 0o755)
 	defer os.RemoveAll(work)
+	defer removeBuilt()
 	args := []string{"-test.run", "^TestReplay$", "-test.v", "-test.timeout", "10m"}
 	var cmd *exec.Cmd
 	nsEnv := "VERIF_NETNS=0"
